@@ -163,31 +163,26 @@ theorem C02_external_requests_accounted {cfg : Config S} (hdt : 0 ≤ cfg.dt) {P
     clock did not go back. Whatever the driver does afterwards starts from a sound world. -/
 theorem C02_raised_step_accounted {cfg : Config S} (hdt : 0 ≤ cfg.dt) (P : NodeId → Proto S σ)
     {w : World S σ} (hw : WInv w) :
-    WInv (stepRaised cfg P w) ∧ w.loop.now ≤ (stepRaised cfg P w).loop.now := by
-  unfold stepRaised
-  split
-  · exact ⟨hw, Int.le_refl _⟩
-  · have hi : WInv (if w.initialized then w else initialise cfg P w) ∧
-        (if w.initialized then w else initialise cfg P w).loop.now = w.loop.now := by
-      split
-      · exact ⟨hw, rfl⟩
-      · exact ⟨(initialise_inv cfg P w hw).1, (initialise_inv cfg P w hw).2.1⟩
-    generalize (if w.initialized then w else initialise cfg P w) = w1 at hi
-    obtain ⟨hw1, hn1⟩ := hi
-    simp only
-    split
-    · have := finalise_inv cfg P w1 hw1
-      exact ⟨this.1, by rw [this.2.1, hn1]; exact Int.le_refl _⟩
-    · split
-      · exact ⟨hw1, by rw [hn1]; exact Int.le_refl _⟩
-      · rename_i e rest hq
-        have hp : WInv (popped e rest w1) := popped_inv hw1 hq
-        have hle : w1.loop.now ≤ e.ts := hw1.ge_now e (by rw [hq]; exact List.mem_cons_self)
-        have ex := ext_execEv cfg hdt P e (popped e rest w1)
-        refine ⟨ex.inv hp, ?_⟩
-        show w.loop.now ≤ (execEv cfg P e (popped e rest w1)).loop.now
-        rw [ex.now_eq, ← hn1]
-        exact hle
+    WInv (stepRaised cfg P w) ∧ w.loop.now ≤ (stepRaised cfg P w).loop.now :=
+  stepRaised_inv cfg hdt P w hw
+
+/-- ... and so for every run of a tolerant stepped driver (steps, externally issued requests and steps out
+    of which an exception escaped, in any order): executed ++ queued is a duplicate-free, ordered permutation
+    of the accepted requests, executed timestamps never decrease, nothing queued lies in the past -/
+theorem C02_exec_exactly_once_tolerant {cfg : Config S} (hdt : 0 ≤ cfg.dt) {P : NodeId → Proto S σ}
+    {w : World S σ} (h : ReachableT cfg P w) :
+    (w.rexecuted ++ w.loop.queue).Perm w.raccepted ∧
+    w.executed.Pairwise (fun a b => a.ts ≤ b.ts) ∧
+    (∀ e ∈ w.loop.queue, w.loop.now ≤ e.ts) := by
+  have inv := reachableT_inv hdt h
+  refine ⟨inv.perm, ?_, inv.ge_now⟩
+  unfold World.executed
+  exact List.pairwise_reverse.mpr (inv.exec_sorted.imp keyLt_ts_le)
+
+/-- non-vacuity: a raised step in the middle of a run -/
+example (cfg : Config S) (P : NodeId → Proto S σ) :
+    ReachableT cfg P (step cfg P (stepRaised cfg P (step cfg P (init cfg P)).1)).1 :=
+  ((ReachableT.init.step).raised).step
 
 /-- non-vacuity of the above: steps and external programs interleave freely -/
 example (cfg : Config S) (P : NodeId → Proto S σ) (n : NodeId) (p q : Prog S σ) :
